@@ -118,6 +118,17 @@ fn finish_check(prop: &str, tier: &str, batch_seed: u64, t0: Instant, main: Batc
 
     let mut all: Vec<(String, J, u64)> = main.violations.iter().map(|(id, (doc, n))| (id.clone(), doc.clone(), *n)).collect();
     all.extend(extra_violations);
+    // crashes and hangs were attributed by the supervisor and are not minimised yet: shrink them by
+    // re-running candidates in watched child processes
+    for (id, doc, _) in all.iter_mut() {
+        let clause = doc.str_of("clause");
+        if (clause == "abort" || clause == "hang") && doc.get("layer_b").is_none() && !doc.bool_of("minimised") {
+            let is_known = known.iter().any(|k| k.property == prop && k.status == "open" && k.clause == clause && doc.str_of("class").starts_with(&k.class_prefix));
+            if !is_known {
+                *doc = minimise_crash(doc, id, if clause == "hang" { 40 } else { 150 });
+            }
+        }
+    }
 
     let mut viol_list = Vec::new();
     for (id, doc, count) in &all {
@@ -278,6 +289,44 @@ fn finish_check(prop: &str, tier: &str, batch_seed: u64, t0: Instant, main: Batc
     }
 }
 
+fn minimise_crash(doc: &J, id: &str, budget: usize) -> J {
+    let start = match doc.get("scenario").map(Concrete::from_json) {
+        Some(Ok(c)) => c,
+        _ => return doc.clone(),
+    };
+    let dir = format!("{}/{}-mincrash", supervisor::scratch_base(), std::process::id());
+    let _ = std::fs::create_dir_all(&dir);
+    let path = format!("{}/candidate.json", dir);
+    let want = id.to_string();
+    let hang = doc.str_of("clause") == "hang";
+    let test = |c: &Concrete| -> bool {
+        let mut d = doc.clone();
+        d.put("scenario", c.to_json());
+        if std::fs::write(&path, d.to_string()).is_err() {
+            return false;
+        }
+        // a shorter budget while shrinking (a typical run takes < 1 ms); the result is re-verified with the full one
+        let (outcome, _) = supervisor::run_replay_inner(&path, if hang { 3 } else { 20 });
+        let got = match outcome.as_str() {
+            "hang" => "hang/cpu-budget".to_string(),
+            "exit" => String::new(),
+            other => format!("abort/{}", other),
+        };
+        got == want
+    };
+    if !test(&start) {
+        let _ = std::fs::remove_dir_all(&dir);
+        return doc.clone();
+    }
+    let (min, used) = minimise::minimise(&start, None, &test, budget);
+    let _ = std::fs::remove_dir_all(&dir);
+    let mut d = doc.clone();
+    d.put("scenario", min.to_json());
+    d.put("minimised", J::Bool(true));
+    d.put("minimiser_executions", J::u(used as u64));
+    d
+}
+
 fn required_probes(prop: &str) -> &'static [&'static str] {
     match prop {
         "C07" => &[
@@ -327,7 +376,7 @@ fn run_audit(prop: &str, batch_seed: u64, n: u64, hang: u64) -> (u64, u64, u64) 
     let a = run_batch(&BatchCfg { prop: prop.into(), batch_seed, start: 0, end: n, workers: 16, audit: true, hang_cpu_s: hang, tag: "auditA".into() });
     let b = run_batch(&BatchCfg { prop: prop.into(), batch_seed, start: 0, end: n, workers: 5, audit: true, hang_cpu_s: hang, tag: "auditB".into() });
     let mut mismatches = 0;
-    let mut missing = 0;
+    let mut missing: u64 = 0;
     for i in 0..n {
         match (a.audit.get(&i), b.audit.get(&i)) {
             (Some(x), Some(y)) => {
@@ -344,7 +393,9 @@ fn run_audit(prop: &str, batch_seed: u64, n: u64, hang: u64) -> (u64, u64, u64) 
             _ => missing += 1,
         }
     }
-    (n, mismatches, missing)
+    // a run that crashed or hung in an audit batch leaves no record; that is reported through the main batch
+    let lost = a.worker_restarts + b.worker_restarts;
+    (n, mismatches, missing.saturating_sub(lost))
 }
 
 fn check_main(prop: &str, tier: &str) -> i32 {
